@@ -148,6 +148,23 @@ _ns["c_inner"] = Property(Int, observe="value")
 _ns["_get_c_inner"] = cached_property(lambda self: self.value // 2)
 
 
+# the same scalar dependency, but with the getter given explicitly to Property() (a CTrait of kind property is
+# built at once, not a ForwardProperty resolved by the metaclass from the `_get_<name>` method)
+def _mk_explicit(cached):
+    nm = ("c_" if cached else "u_") + "xscalar"
+
+    def getter(self):
+        bump(self, nm)
+        return f_scalar(self)
+    getter.__name__ = "_get_" + nm
+    return Property(cached_property(getter) if cached else getter, observe="value")
+
+
+_ns["c_xscalar"] = _mk_explicit(True)
+_ns["u_xscalar"] = _mk_explicit(False)
+EXTRA_PROPS = {"xscalar": f_scalar}
+
+
 def _tpc(self, name, old, *rest):
     d = DELIVERED.setdefault(id(self), {})
     d[name] = d.get(name, 0) + 1
@@ -181,7 +198,7 @@ PATHS = {
     "dict": [["m", "*", "value"]], "set": [["s", "*", "value"]], "nums": [["nums", "*"]],
     "nested": [["child", "kids", "*", "value"]], "kidchild": [["kids", "*", "child", "value"]],
     "multi": [["value"], ["child", "value"], ["nums", "*"]],
-    "mitems": [["m", "*"]], "sitems": [["s", "*"]],
+    "mitems": [["m", "*"]], "sitems": [["s", "*"]], "xscalar": [["value"]],
 }
 # (the "raw" and "chain" shapes have their own view below)
 TCODE = {"value": 1, "other": 2, "child": 3, "kids": 4, "m": 5, "s": 6, "nums": 7}
@@ -248,7 +265,7 @@ def run_case(case):
     sub = bool(case.get("sub"))
     RootCls = RootSub if sub else Root
     attr = ("u_" if (sub or not cached) else "c_") + pname
-    fn = PROPS[pname][1]
+    fn = EXTRA_PROPS[pname] if pname in EXTRA_PROPS else PROPS[pname][1]
     if fn is None:
         def fn(o, _f=IDFUNS[pname]):
             return _f(o, IDX)
